@@ -17,4 +17,14 @@ from pv.translator import trig as _trig
 _trig.generate(core.REPO, core.LEAN / "Pun/Gen/TrigGen.lean")
 from pv.translator import free as _free
 _free.generate(core.REPO, core.LEAN / "Pun/Gen/FreeGen.lean")
+from pv.translator import frechet as _frechet
+_frechet.generate(core.REPO, core.LEAN / "Pun/Gen/FrechetGen.lean")
+from pv.translator import dispatch as _dispatch
+_dispatch.generate(core.REPO, core.LEAN / "Pun/Gen/DispatchGen.lean")
+from pv.translator import param as _param
+_param.generate(core.REPO, core.LEAN / "Pun/Gen/ParamGen.lean")
+from pv.translator import envimp as _envimp
+_envimp.generate(core.REPO, core.LEAN / "Pun/Gen/EnvImpGen.lean")
+from pv.translator import numops as _numops
+_numops.generate(core.REPO, core.LEAN / "Pun/Gen/NumOpsGen.lean")
 print("generated")
